@@ -141,6 +141,20 @@ def st_process(spec):
             bad("C15.element-hashes-distinct", f"{key}: hash collision among {len(pruned)} element instances")
         elems[key] = sorted(pruned, key=lambda x: x.name)
         events.append(["elements", key, len(pn), core.digest(pn)])
+    # ---- custom rule sets: a rule keyed on a class's own abstract base takes precedence over the general element rule for
+    #      instances of that class (the documented "first match along the MRO"), nested elements keep theirs; the enumeration
+    #      must then be exactly: every instance whose nested elements are valid, whatever its own is_valid() says
+    import frozendict as _fd
+
+    for key, cls in bases.items():
+        V2 = _fd.frozendict({**dict(V), cls: (lambda x: True)})
+        got = sorted(x.name for x in all_instances(cls, V2))
+        want = sorted(x.name for x in all_instances(cls, None) if all(_elements_valid(getattr(x, f.name)) for f in dataclasses.fields(x)))
+        events.append(["reopened-family", key, len(got), core.digest(got)])
+        if got != want:
+            missing = sorted(set(want) - set(got))[:3]
+            extra = sorted(set(got) - set(want))[:3]
+            bad("C15.enumeration-equals-valid-set", f"{key}: with a rule on {cls.__name__} that admits everything, the enumeration yields {len(got)} instances, the rules admit {len(want)}; missing={missing} extra={extra}")
     # ---- fault injection at the validity seam: an enumeration that is interrupted part-way (an exception raised inside the
     #      k-th validity check - what Ctrl-C or a MemoryError during the long enumeration amounts to) and then simply repeated
     #      with the very same arguments must give the complete set, not whatever the interrupted attempt left behind
